@@ -58,6 +58,8 @@ Section CompStack.
     Variable w : bytes.
     Hypothesis HC : 0 < CHUNK.
     Hypothesis HM : len w < 2 ^ 32 * CHUNK.
+    (* CHUNK_SIZE <= 2^31: the encryption reader's SeekFrom::Current arm cannot panic (TotalEnc.eseek_tame) *)
+    Hypothesis HC31 : CHUNK <= 2 ^ 31.
 
     Notation E := (EncReader CHUNK TAG ks tagc (Cursor w)).
     Notation IE := (Ienc CHUNK (Cursor w) (fun _ => True) (fun s => s) (len w)).
@@ -65,7 +67,7 @@ Section CompStack.
 
     Let HE : Tame E IE (pos_enc CHUNK (Cursor w)) (len w) :=
       enc_reader_tame CHUNK TAG ks tagc (Cursor w) (fun _ => True) (fun s => s) (len w)
-        (cursor_tame_inner w) HC HM.
+        (cursor_tame_inner w) HC HM HC31.
 
     (* EncryptionLayerReader::initialize: rewind *)
     Definition enc_init0 (e : st E) : st E * res unit :=
